@@ -36,19 +36,28 @@ type cfgDef struct {
 	spe        uint64 // SLOTS_PER_EPOCH (0: the minimal preset's 8)
 	// later fork epochs bellatrix, capella, deneb (nil: never). Altair is always at altairEpoch.
 	laterForks []uint64
+	epp        uint64 // EPOCHS_PER_SYNC_COMMITTEE_PERIOD (0: 4)
+	maxComm    uint64 // MAX_COMMITTEES_PER_SLOT (0: the minimal preset's 4)
 }
 
 var cfgDefs = map[string]cfgDef{
 	// 64 validators, 2 committees of 4 per slot (aggregator modulo 1), sync committee 32 (sync aggregator modulo 1)
-	"s": {"s", 64, 4, 32, 0, nil},
+	"s": {"s", 64, 4, 32, 0, nil, 0, 0},
 	// 256 validators, 1 committee of 32 per slot (aggregator modulo 2), sync committee 128 (sync aggregator modulo 2)
-	"b": {"b", 256, 32, 128, 0, nil},
+	"b": {"b", 256, 32, 128, 0, nil, 0, 0},
 	// 64 validators with mainnet's 32 slots per epoch (1 committee of 2 per slot): the deneb attestation window
 	// (up to 63 slots) is WIDER than the phase0 one here, on the 8-slot networks it is narrower
-	"m": {"m", 64, 4, 32, 32, nil},
+	"m": {"m", 64, 4, 32, 32, nil, 0, 0},
 	// a finite fork schedule: altair 2, bellatrix 3, capella 5, deneb 6 (electra/fulu never): block signatures and fork
 	// digests around every fork activation epoch
-	"f": {"f", 64, 4, 32, 0, []uint64{3, 5, 6}},
+	"f": {"f", 64, 4, 32, 0, []uint64{3, 5, 6}, 0, 0},
+	// Presets in which package constants are pulled apart from the preset constants they equal on mainnet/minimal:
+	// SLOTS_PER_EPOCH = 48 > ATTESTATION_PROPAGATION_SLOT_RANGE (32): more than 32 blocks can lie between a target
+	// epoch's start and a voted block; EPOCHS_PER_SYNC_COMMITTEE_PERIOD = 3 != SYNC_COMMITTEE_SUBNET_COUNT (4)
+	"w": {"w", 96, 4, 32, 48, nil, 3, 0},
+	// SLOTS_PER_EPOCH = 4 < 8, MAX_COMMITTEES_PER_SLOT = 3 != SYNC_COMMITTEE_SUBNET_COUNT, sync period 3 epochs,
+	// SYNC_COMMITTEE_SIZE = 64 (subcommittees of 16 = TARGET_AGGREGATORS_PER_SYNC_SUBCOMMITTEE)
+	"t": {"t", 64, 4, 64, 4, nil, 3, 3},
 }
 
 type netCtx struct {
@@ -95,6 +104,12 @@ func makeSpec(d cfgDef) *common.Spec {
 	s.SYNC_COMMITTEE_SIZE = view.Uint64View(d.syncSize)
 	s.SHARD_COMMITTEE_PERIOD = 2
 	s.EPOCHS_PER_SYNC_COMMITTEE_PERIOD = 4
+	if d.epp != 0 {
+		s.EPOCHS_PER_SYNC_COMMITTEE_PERIOD = common.Epoch(d.epp)
+	}
+	if d.maxComm != 0 {
+		s.MAX_COMMITTEES_PER_SLOT = view.Uint64View(d.maxComm)
+	}
 	s.MIN_GENESIS_ACTIVE_VALIDATOR_COUNT = view.Uint64View(d.validators)
 	return &s
 }
